@@ -49,6 +49,19 @@ theorem genRanges_arith (start end_ batch : Int) (c : Bool)
     rw [w _ (by omega) (by omega)]
   · simp [Gen.genRangesAdvance]
 
+/- FULL: in continuous mode, whenever nothing is left to hand out (`end ≤ start`, which includes a start index
+   beyond the current tree), `genRanges` polls for a bigger STH instead of computing a batch:
+     theorem genRanges_polls_at_end (start end_ : Int) (h : end_ ≤ start) : Gen.genRangesAtEnd start end_ = true
+   This is what the model's `grow` guard (`end ≤ cursor`) says and what the property needs ("nothing outside
+   [start, end) is delivered"). On the unchanged tree the regenerated condition is `start == end`, so the statement
+   is false for `end < start`: the code then computes the batch `[start, end-1]` (empty), moves its cursor *back* to
+   `end`, and later delivers the indices `end … start-1`, which lie outside the requested range — finding C16-1
+   (known_findings.d/C16.json, fixes/C16-1.diff, reproduced by the harness scenarios `b9` / `sb*`). With the fix applied
+   the regenerated condition is `start >= end` and the full statement is provable by `simp [Gen.genRangesAtEnd]`.
+   Proved here: the case the unchanged code handles. -/
+theorem genRanges_polls_at_end_partial (start : Int) : Gen.genRangesAtEnd start start = true := by
+  simp [Gen.genRangesAtEnd]
+
 /-- the same statement in the vocabulary of the model state -/
 theorem hand_matches_code (s : St) (hc : s.cursor < s.end_) (hb : 0 < s.batch)
     (he : s.end_ < 2^63) (hb' : s.batch < 2^63) :
@@ -324,6 +337,10 @@ theorem empty_answers_livelock (n : Nat) :
 the generator hands out empty ranges for ever (in the model: `hand` is never enabled, nothing else can progress). -/
 example : Gen.genRangesNext 5 (Gen.genRangesBatchEnd 5 9 0) = (5, 4) ∧ Gen.genRangesAdvance (Gen.genRangesBatchEnd 5 9 0) = 5 := by decide
 
+example : Gen.genRangesAtEnd 6 6 = true := by decide
+/-- start beyond the end of the tree, in the model: nothing is handed out until the log has grown past the start, and then
+only indices from the start on are delivered -/
+example : (run exEnv (init 8 5 2 1 1 true) [.hand 0, .grow 6, .hand 0, .grow 9, .hand 0, .resp 0 1]).delivered.map Prod.fst = [8] := by decide
 example : Gen.genRangesBatchEnd 6 7 1000 = 7 ∧ Gen.genRangesNext 6 7 = (6, 6) := by decide
 example : Gen.updateSTHRejects 10 10 1010 false = true ∧ Gen.updateSTHRejects 11 10 1010 true = true ∧ Gen.updateSTHRejects 11 10 1010 false = false := by decide
 example : Gen.prepareResets 50 0 = true ∧ Gen.prepareResets 50 60 = true ∧ Gen.prepareResets 50 40 = false := by decide
